@@ -12,6 +12,7 @@ import (
 	"regexp"
 	"strings"
 	"sync"
+	"unicode/utf8"
 )
 
 type aareEnv struct {
@@ -93,8 +94,9 @@ func (env *aareEnv) globToRe(p string, depth int) (string, error) {
 		c := p[i]
 		switch {
 		case c == '\\' && i+1 < len(p):
-			b.WriteString(regexp.QuoteMeta(string(p[i+1])))
-			i += 2
+			_, n := utf8.DecodeRuneInString(p[i+1:])
+			b.WriteString(regexp.QuoteMeta(p[i+1 : i+1+n]))
+			i += 1 + n
 		case c == '*':
 			if i+1 < len(p) && p[i+1] == '*' {
 				b.WriteString(".*")
@@ -133,8 +135,10 @@ func (env *aareEnv) globToRe(p string, depth int) (string, error) {
 			}
 			i++
 		default:
-			b.WriteString(regexp.QuoteMeta(string(c)))
-			i++
+			// a whole character (a byte of a multi-byte character is not a character of its own)
+			_, n := utf8.DecodeRuneInString(p[i:])
+			b.WriteString(regexp.QuoteMeta(p[i : i+n]))
+			i += n
 		}
 	}
 	return b.String(), nil
